@@ -5,6 +5,8 @@ import Gv.Spec.Structural
 import Gv.Model.PlanCheck
 import Gv.Model.PlanCheckU
 import Gv.Model.PathCheck
+import Gv.Model.CustomCheck
+import Gv.Model.PlanCheckS
 
 namespace Gv.Driver
 open Gv Gv.Sexp Gv.Eval
@@ -175,7 +177,11 @@ def handleEval (req : Sexp) : Sexp :=
     -- … of the update / skipped-field composites (C10_composite, C05_composite_ignored_unassigned), and do all error sites
     -- carry their position (C07_path_is_position)?
     let frag := if wantFrag then [mkList "fragment" [.atom (toString (PlanCheck.checkProg prog)),
-      .atom (toString (PlanCheck.checkProgU prog)), .atom (toString (PathCheck.pathsOK prog))]] else []
+      .atom (toString (PlanCheck.checkProgU prog)), .atom (toString (PathCheck.pathsOK prog)),
+      -- custom functions / declared methods first at every typed position (C06_every_occurrence); the deep-copy fragment
+      -- extended by skipCopySameType positions (C04_skipcopy_composite) and whether the program has such a position
+      .atom (toString (CustomCheck.customsFirst prog)), .atom (toString (PlanCheckS.checkProgS prog)),
+      .atom (toString (PlanCheckS.progHasShare prog))]] else []
     mkList "ok" (outs ++ frag ++ symCompare gc ms req)
 
 end Gv.Driver
